@@ -853,7 +853,45 @@ func c11Run(c *engine.Ctx) {
 		}
 		c.DistinctN(int64(len(smallArrays) + len(small)))
 	}
-	c.Sample(map[string]any{"a": univ.Repr(smallArrays[len(smallArrays)-1]), "b": univ.Repr(smallArrays[20])})
+	// long operands (a library may switch to a set or a sort above some size): x against y hidden among n fillers
+	li2 := 0
+	for _, x := range small {
+		for _, y := range small {
+			for _, n := range []int{15, 16, 17, 40, 130} {
+				li2++
+				if !c.MineIdx(li2) {
+					continue
+				}
+				for _, at := range []int{0, n / 2, n} {
+					var b []any
+					for i := 0; i < n; i++ {
+						if i == at {
+							b = append(b, y)
+						}
+						if i%2 == 0 {
+							b = append(b, fmt.Sprintf("f%d", i))
+						} else {
+							b = append(b, 1000+i)
+						}
+					}
+					if at == n {
+						b = append(b, y)
+					}
+					c.Eval()
+					if msg := c11CheckMinusIndices([]any{x, "f2", 99, x}, b); msg != "" {
+						c.Violation(fmt.Sprintf("long %s vs %s among %d at %d", univ.Repr(x), univ.Repr(y), n, at), "minus-indices-mismatch", map[string]any{"msg": msg, "tarr": univ.ToTagged([]any{x, "f2", 99, x}), "tt": univ.ToTagged(b)})
+					}
+					// and the long array on the left
+					c.Eval()
+					if msg := c11CheckMinusIndices(b, []any{x}); msg != "" {
+						c.Violation(fmt.Sprintf("long-left %s vs %s among %d at %d", univ.Repr(x), univ.Repr(y), n, at), "minus-indices-mismatch", map[string]any{"msg": msg, "tarr": univ.ToTagged(b), "tt": univ.ToTagged([]any{x})})
+					}
+					c.DistinctN(2)
+				}
+			}
+		}
+	}
+	c.Sample(map[string]any{"a": univ.Repr(smallArrays[len(smallArrays)-1]), "b": univ.Repr(smallArrays[20]), "long": "every (x, y) of the 14-value set with y among 15, 16, 17, 40, 130 fillers at the front, middle and end"})
 
 	// (5) key order everywhere: all objects with <= 4 keys from the key set, each in every insertion order class
 	c.Sub("key-order")
@@ -947,7 +985,7 @@ func init() {
 		Level: "exploration",
 		Rule: "exhaustive: all ordered pairs and triples of the ordering universe (every type/nesting neighbour, each number in every Go representation, floats restricted to |f|<2^53 as stated); " +
 			"all arrays of length<=3 over a sub-universe and all 720 permutations of six 6-element multisets through 9 consumers x 7 key functions; every sorted array x every target for bsearch; " +
-			"array pairs for subtraction/indices; all objects with <=4 keys of an 11-key set. A case is one (pair | triple | array | array,target | key set); all are distinct by construction and non-trivial (each evaluates the real Compare/VM).",
+			"array pairs for subtraction/indices incl. operands of 15..130 elements; all objects with <=4 keys of an 11-key set. A case is one (pair | triple | array | array,target | key set); all are distinct by construction and non-trivial (each evaluates the real Compare/VM).",
 		Assume:         []string{"reference order refCompare transcribed from the jq manual", "key functions of *_by are evaluated by gojq itself (their correctness is C01/C03's business)", "values outside the universes are not covered"},
 		Run:            c11Run,
 		Replay:         c11Replay,
